@@ -52,12 +52,12 @@ LEVEL = {
                'proved by induction in Verus for all ciphers with D.E = id, all block sizes and lengths; every backend / core function of '
                'the nine crates is proved equal to its spec step (code = spec), so the block-level round trip follows for all inputs. '
                'Length preservation is part of every contract.',
-               'Bounded only: buffered-CFB data functions, the cts *_b2b defaults, the CTS round trip as such (each direction is proved against '
+               'Bounded only: buffered-CFB data functions, the CTS round trip as such (each direction is proved against '
                'NIST separately), and the composition with the padded / one-shot / stream front-ends of the cipher crate (driver harnesses).'),
     'C02': _lv('Every CBC/PCBC/IGE backend method, state import/export and plumbing function of /repo is extracted token-exactly on each run '
                'and verified by Verus against the recurrence transcribed from the property (uninterpreted E/D, any block size, any parallel '
                'width, both aliasing cases, arbitrary ciphertext). Unbounded proof of the repo functions.',
-               'The three `xor` helpers (iter_mut().zip()) are external_body: checked by Kani harnesses for block sizes 1,2,3 (bounded).'),
+               'The `xor` helpers (`for (a, b) in out.iter_mut().zip(buf)`) are verified with a shim iterator whose element-wise pairing models std::iter::Zip (assumed).'),
     'C03': _lv('CFB (block and parallel decrypt), CFB-8 (shift register loop) and OFB (one backend behind three traits) are verified by Verus '
                'against their recurrences for all E, block sizes, widths; only the encryption direction of the cipher appears in the types.',
                'BufEncryptor::encrypt / BufDecryptor::decrypt and xor_set1/2 are outside the Verus subset: their byte-transducer contract is '
@@ -71,9 +71,9 @@ LEVEL = {
                'twelve closures (encrypt and decrypt, CBC and ECB, CS1/CS2/CS3) are verified by Verus against a transcription of NIST SP '
                '800-38A Addendum for every block size, every length >= b (every residue, one block, whole blocks), both aliasing cases, '
                'any parallel width.',
-               'Only the two *_b2b default methods (pattern closures + Result::and_then) are outside Verus: checked by the cts harnesses '
-               '(b in {2,3}, every L <= 3b+1) -- bounded. decryption-inverts-encryption for CTS is stated by the harness round trips, the '
-               'Verus contracts state each direction against NIST separately.'),
+               'The two *_b2b default methods are verified too (closure contracts spliced in; Result::and_then assumed with its std meaning). '
+               'decryption-inverts-encryption for CTS: tail-inversion lemmas + each direction proved against NIST separately; the harness '
+               'round trips are bounded (b in {2,3}, every L <= 3b+1).'),
     'C06': _lv('BeltCtrCore init (s = le128(E(IV))), gen_ks_block (pre-increment mod 2^128, E(le128(s))), the parallel body, seek and '
                'remaining are verified by Verus for all E, IVs, positions and widths, including wrap of s across 2^128.'),
     'C07': _lv('The transducer contract is stated once on the block-mode traits EXTRACTED FROM THE PINNED cipher CRATE; every single-block and '
@@ -114,12 +114,13 @@ LEVEL = {
                'last one") is discharged. Recorded by obligation id and by a concrete replay; not repairable in /repo.'),
     'C12': _lv('Every contract over InOut / InOutBuf is proved with the aliasing flag universally quantified and no assumption on the initial '
                'output contents; right-hand sides mention only the input at entry. Includes the cts encrypt closures and helpers.',
-               'buffered CFB and the cts *_b2b defaults: harness (in place and buffer to buffer, arbitrary initial output) -- bounded.'),
+               'buffered CFB: harness (in place and buffer to buffer, arbitrary initial output) -- bounded. The cts *_b2b defaults are verified.'),
     'C13': _lv('Length gates of all six cts variants: Err exactly when shorter than one block, with the frame clause (buffer untouched). Every '
                'function verified by Verus is free of panics under call-site-derived preconditions (index bounds, overflow, unwrap, '
                'debug_assert rewritten to an obligation).',
                'The dependency\'s byte wrapper is verified panic-free under its position invariant (unsafe blocks, unreachable_unchecked, '
-               'debug_assert!, assert! all discharged). *_b2b defaults (closure patterns), buffered CFB: harness only (bounded). Key/IV slice '
+               'debug_assert!, assert! all discharged). The cts *_b2b defaults are verified (unequal lengths and short messages rejected with '
+               'the output untouched). Buffered CFB: harness only (bounded). Key/IV slice '
                'lengths and padded decryption are decided in crypto-common / cipher (assumed).'),
     'C14': _lv('Front-ends are equal because they are proved equal to one shared spec function: OFB block step = keystream step (lemma), '
                'cts::cbc_enc/cbc_dec and the cbc crate against the same run(cbc step), CS1/CS2/CS3 on whole blocks (lemmas), buffered CFB on a '
